@@ -434,7 +434,7 @@ theorem inv_prim {U : Universe} (hU : U.WF) {s s' : St} (h : Inv U s) (p : Prim 
   | enqueue ev args _ _ => exact inv_fields h rfl rfl rfl rfl rfl
   | setEnabled b => exact inv_fields h rfl rfl rfl rfl rfl
   | pop ev args q _ _ => exact inv_fields h rfl rfl rfl rfl rfl
-  | call r m args hs k halive hh =>
+  | call r m lm args hs k halive hh =>
     refine ⟨tinv_of_tables h.toTInv rfl rfl, ?_, ?_, ?_⟩
     · intro x l hg
       have := h.alive x l hg
